@@ -68,11 +68,6 @@ def classify(case, out):
     p = parse_rt(case)
     d = kv(out.split(" | ", 1)[1] if (out.startswith("DIED") and " | " in out) else out)
     ty = p["ty"]
-    # C12: a zstd/zlib-wrapped stream whose length equals a constant-stream size is taken for unwrapped
-    if "out" in d and d.get("lc", "-1") != "-1" and int(d["out"], 16) in bypass_sizes(ty):
-        return "sniff_bypass_size"
-    if "vout" in d and d.get("vlc", "-1") != "-1" and int(d["vout"], 16) in bypass_sizes(ty):
-        return "sniff_bypass_size"
     if out.startswith("DIED") or d.get("st") != "ok":
         return None
     if "e" not in d:
